@@ -316,6 +316,18 @@ impl Campaign for C20c {
                 }
             }
         }
+        // once the server is dropped and every client has gone, all library threads end
+        // within the idle period (the pool makes its idle workers timed when it is dropped)
+        if let Some(fin) = snap(out, "final") {
+            let live: Vec<_> = fin.threads.iter().filter(|t| t.0 == "lib" && t.1 != "Finished").collect();
+            if !live.is_empty() && !sc.knobs.racy_time && !sc.knobs.spurious {
+                v.violations.push(Violation {
+                    clause: "C20.reclaim_after_drop".into(),
+                    signature: "library threads survive the dropped server for longer than the idle period".into(),
+                    detail: format!("{}: more than 6 virtual seconds after the Server was dropped and the last client left, {} library thread(s) are still alive: {}", sc.note, live.len(), describe_blocked(fin)),
+                });
+            }
+        }
         v.nontrivial = late > 0;
         v
     }
